@@ -19,9 +19,18 @@ model/Header.vos model/Header.vok model/Header.required_vos: model/Header.v gen/
 proofs/Tactics.vo proofs/Tactics.glob proofs/Tactics.v.beautified proofs/Tactics.required_vo: proofs/Tactics.v 
 proofs/Tactics.vio: proofs/Tactics.v 
 proofs/Tactics.vos proofs/Tactics.vok proofs/Tactics.required_vos: proofs/Tactics.v 
+proofs/BaseLemmas.vo proofs/BaseLemmas.glob proofs/BaseLemmas.v.beautified proofs/BaseLemmas.required_vo: proofs/BaseLemmas.v model/Base.vo proofs/Tactics.vo
+proofs/BaseLemmas.vio: proofs/BaseLemmas.v model/Base.vio proofs/Tactics.vio
+proofs/BaseLemmas.vos proofs/BaseLemmas.vok proofs/BaseLemmas.required_vos: proofs/BaseLemmas.v model/Base.vos proofs/Tactics.vos
 proofs/HeaderLemmas.vo proofs/HeaderLemmas.glob proofs/HeaderLemmas.v.beautified proofs/HeaderLemmas.required_vo: proofs/HeaderLemmas.v gen/Consts.vo model/Base.vo model/Types.vo model/Header.vo proofs/Tactics.vo
 proofs/HeaderLemmas.vio: proofs/HeaderLemmas.v gen/Consts.vio model/Base.vio model/Types.vio model/Header.vio proofs/Tactics.vio
 proofs/HeaderLemmas.vos proofs/HeaderLemmas.vok proofs/HeaderLemmas.required_vos: proofs/HeaderLemmas.v gen/Consts.vos model/Base.vos model/Types.vos model/Header.vos proofs/Tactics.vos
+proofs/CrcLemmas.vo proofs/CrcLemmas.glob proofs/CrcLemmas.v.beautified proofs/CrcLemmas.required_vo: proofs/CrcLemmas.v gen/Consts.vo gen/CrcTable.vo model/Base.vo model/Crc.vo proofs/Tactics.vo proofs/BaseLemmas.vo proofs/HeaderLemmas.vo
+proofs/CrcLemmas.vio: proofs/CrcLemmas.v gen/Consts.vio gen/CrcTable.vio model/Base.vio model/Crc.vio proofs/Tactics.vio proofs/BaseLemmas.vio proofs/HeaderLemmas.vio
+proofs/CrcLemmas.vos proofs/CrcLemmas.vok proofs/CrcLemmas.required_vos: proofs/CrcLemmas.v gen/Consts.vos gen/CrcTable.vos model/Base.vos model/Crc.vos proofs/Tactics.vos proofs/BaseLemmas.vos proofs/HeaderLemmas.vos
+proofs/EncapSpec.vo proofs/EncapSpec.glob proofs/EncapSpec.v.beautified proofs/EncapSpec.required_vo: proofs/EncapSpec.v gen/Consts.vo model/Base.vo model/Types.vo model/Header.vo model/Ext.vo model/Encap.vo proofs/Tactics.vo proofs/BaseLemmas.vo proofs/HeaderLemmas.vo
+proofs/EncapSpec.vio: proofs/EncapSpec.v gen/Consts.vio model/Base.vio model/Types.vio model/Header.vio model/Ext.vio model/Encap.vio proofs/Tactics.vio proofs/BaseLemmas.vio proofs/HeaderLemmas.vio
+proofs/EncapSpec.vos proofs/EncapSpec.vok proofs/EncapSpec.required_vos: proofs/EncapSpec.v gen/Consts.vos model/Base.vos model/Types.vos model/Header.vos model/Ext.vos model/Encap.vos proofs/Tactics.vos proofs/BaseLemmas.vos proofs/HeaderLemmas.vos
 props/C14.vo props/C14.glob props/C14.v.beautified props/C14.required_vo: props/C14.v model/Base.vo model/Types.vo model/Header.vo proofs/HeaderLemmas.vo
 props/C14.vio: props/C14.v model/Base.vio model/Types.vio model/Header.vio proofs/HeaderLemmas.vio
 props/C14.vos props/C14.vok props/C14.required_vos: props/C14.v model/Base.vos model/Types.vos model/Header.vos proofs/HeaderLemmas.vos
